@@ -47,6 +47,25 @@ func TestVerifC17(t *testing.T) {
 			}
 		}
 	}
+	// one direction loses everything but the hellos while the other side's (re)transmitted flights
+	// arrive with their datagrams in reverse order: stale records behind newer ones are still
+	// retransmissions, so the waiting side keeps backing off
+	for _, vn := range []string{"cert", "cert-clientauth", "cert-mtu200", "psk-cid-mtu40", "cert-clientauth-mtu150", "psk-resumed"} {
+		v, ok := byName[vn]
+		if !ok {
+			continue
+		}
+		for _, iv := range []time.Duration{100 * time.Millisecond, time.Second} {
+			for _, dir := range [][2]string{{"server", "client"}, {"client", "server"}} {
+				for _, nb := range []bool{false, true} {
+					jobs = append(jobs, job{v, nil, c02Opt{
+						Interval: iv, NoBackoff: nb, SilenceUntil: 40 * iv, SilenceTo: dir[0], KeepHellos: true,
+						ReverseTo: dir[1], Limit: 40*iv + 500*time.Second,
+					}})
+				}
+			}
+		}
+	}
 	// silence starting after the handshake made some progress: random masks + later silence window
 	n := 40
 	if vIsThorough() {
